@@ -2,7 +2,9 @@
 
 Decides: the set of Database fields that statement execution can write is covered by the fields
 BEGIN captures (by clone) and ROLLBACK restores; rollback assigns every captured field on its
-success path; COMMIT restores nothing.  Does NOT decide that Clone of Table/Catalog is deep."""
+success path; COMMIT restores nothing.  Does NOT decide that Clone of Table/Catalog is deep.
+(own) outside the COMMIT/ROLLBACK executors a function ends (rolls back or commits) only a transaction that its
+own begin_transaction opened on the same path."""
 from ..engine.callgraph import CallGraph
 from ..engine.facts import callee_name
 from ..engine.paths import success_starts
